@@ -14,6 +14,8 @@ ap.add_argument("--pkg", default="./log")
 ap.add_argument("--status", default="survived")
 ap.add_argument("--ids", default="")
 ap.add_argument("--timeout", default="20m")
+ap.add_argument("--retry", action="store_true")
+ap.add_argument("--files", default="")
 a = ap.parse_args()
 rows = [json.loads(l) for l in open(a.inp)]
 want = set(a.ids.split(",")) if a.ids else None
@@ -23,6 +25,11 @@ def sel(r):
         return False
     if want is not None:
         return os.path.basename(r["mutant"]) in want
+    if a.files and os.path.basename(r["file"]) not in a.files.split(","):
+        return False
+    d = r["desc"]
+    if any(x in d for x in ("trace", "println", "logger", "tracer.", "debug(", "alerts.")):
+        return False
     return r["status"] == a.status
 rows = [r for r in rows if sel(r)]
 print(len(rows), "mutants", file=sys.stderr)
@@ -30,7 +37,12 @@ def one(r):
     with tempfile.NamedTemporaryFile("w", suffix=".json", delete=False) as f:
         json.dump({"Replace": {r["file"]: r["mutant"]}}, f)
     try:
-        p = subprocess.run(["go", "test", "-vet=off", "-count=1", "-timeout", a.timeout, "-overlay", f.name, a.pkg], cwd="/repo", env=ENV, stdout=subprocess.PIPE, stderr=subprocess.STDOUT, text=True)
+        cmd = ["go", "test", "-vet=off", "-count=1", "-failfast", "-timeout", a.timeout, "-overlay", f.name, a.pkg]
+        p = subprocess.run(cmd, cwd="/repo", env=ENV, stdout=subprocess.PIPE, stderr=subprocess.STDOUT, text=True)
+        if p.returncode != 0 and a.retry and "panic: test timed out" not in p.stdout:
+            p2 = subprocess.run(cmd, cwd="/repo", env=ENV, stdout=subprocess.PIPE, stderr=subprocess.STDOUT, text=True)
+            if p2.returncode == 0:
+                p = p2
     finally:
         os.unlink(f.name)
     fails = [l for l in p.stdout.splitlines() if l.startswith(("--- FAIL", "panic:", "FAIL"))][:4]
